@@ -376,6 +376,7 @@ func c03Enum() *senum {
 			func() *rt.Node { return rt.Assign("=", Id("pk"), rt.Nil()) }, // a nil-valued variable still shadows the point key
 			func() *rt.Node { return rt.Assign("+=", Id("n0"), I(5)) },    // compound assignment to a name that is only a point key
 			func() *rt.Node { return rt.Assign("=", Id("x"), rt.Bin("/", Id("x"), Id("n0"))) }, // a run-time error (n0 is 0 unless assigned)
+			func() *rt.Node { return rt.Assign("=", Id("w"), Id("x")) },                            // a name only ever assigned by such statements (block-local wherever it runs)
 		},
 		loopOnly: []nodeFn{func() *rt.Node { return rt.Break() }, func() *rt.Node { return rt.Continue() }},
 		conds: []nodeFn{
@@ -386,7 +387,7 @@ func c03Enum() *senum {
 		forInits: []nodeFn{nil, func() *rt.Node { return rt.Assign("=", Id("y"), I(0)) }},
 		forConds: []nodeFn{nil, func() *rt.Node { return rt.Bin("<", Id("x"), I(2)) }},
 		forSteps: []nodeFn{nil, func() *rt.Node { return inc("x") }, func() *rt.Node { return rt.Assign("=", Id("z"), Id("x")) }, // first assigns a name in the post clause
-			func() *rt.Node { return rt.Assign("=", Id("zy"), Id("y")) }}, // copies y, which a body may assign: the body's names are gone when the post clause runs
+			func() *rt.Node { return rt.Call("p", I(7), Id("y"), Id("w")) }}, // probes y and w, which a body may assign: the body's names are gone when the post clause runs
 		forIns: []func(body *rt.Node) *rt.Node{
 			func(b *rt.Node) *rt.Node { return rt.ForIn("y", rt.List(I(1), I(2)), b) },
 			func(b *rt.Node) *rt.Node { return rt.ForIn("x", rt.Str("ab"), b) },
@@ -426,7 +427,7 @@ func c03Structural(w *run.Worker) {
 			}
 			stmts := []*rt.Node{rt.Assign("=", Id("x"), I(0))}
 			stmts = append(stmts, asNodes(fam.At(i))...)
-			stmts = append(stmts, rt.Call("p", Id("x"), Id("y"), Id("pk"), Id("z"), Id("n0"), Id("zy")))
+			stmts = append(stmts, rt.Call("p", Id("x"), Id("y"), Id("pk"), Id("z"), Id("n0"), Id("w")))
 			c03Exec(w, "structure", stmts)
 		}
 	}
